@@ -5,6 +5,7 @@ package main
 import (
 	"strings"
 
+	"github.com/benhoyt/goawk/lexer"
 	"verif/harness/hx"
 )
 
@@ -24,6 +25,7 @@ func bin(op string) opSpec {
 }
 
 var ops []opSpec
+var anyBuiltin int // round-robin over the built-in functions
 
 func init() {
 	for _, op := range []string{"or", "and", "match", "notmatch", "lt", "le", "eq", "ne", "gt", "ge", "concat", "add", "sub", "mul", "div", "mod", "pow"} {
@@ -55,6 +57,11 @@ func init() {
 		opSpec{"call:atan2", "ee", func(k []*N) *N { return &N{K: "call", Op: "atan2", Kids: k} }},
 		opSpec{"call:substr", "eee", func(k []*N) *N { return &N{K: "call", Op: "substr", Kids: k} }},
 		opSpec{"ucall1", "e", func(k []*N) *N { return &N{K: "ucall", S: "f", Kids: k} }},
+		opSpec{"builtin:any", "e", func(k []*N) *N {
+			ns := builtinNames()
+			anyBuiltin++
+			return builtinCall(ns[anyBuiltin%len(ns)], k[0])
+		}},
 		opSpec{"ucall2", "ee", func(k []*N) *N { return &N{K: "ucall", S: "f", Kids: k} }},
 		opSpec{"cmd|getline", "e", func(k []*N) *N { return &N{K: "getline", Kids: []*N{k[0], nil, nil}} }},
 		opSpec{"cmd|getline-var", "el", func(k []*N) *N { return &N{K: "getline", Kids: []*N{k[0], k[1], nil}} }},
@@ -62,6 +69,99 @@ func init() {
 		opSpec{"getline<file", "e", func(k []*N) *N { return &N{K: "getline", Kids: []*N{nil, nil, k[0]}} }},
 		opSpec{"getline-var<file", "le", func(k []*N) *N { return &N{K: "getline", Kids: []*N{nil, k[0], k[1]}} }},
 	)
+}
+
+// a well-formed call of the built-in function `name` (argument shapes as parser.primary requires
+// them; a built-in this table does not know gets the one-argument form)
+func builtinCall(name string, arg *N) *N {
+	re := func() *N { return &N{K: "strregex", S: "re", Raw: true} }
+	arr := func() *N { return &N{K: "var", S: "arr", Raw: true} }
+	str := func(s string) *N { return &N{K: "str", S: s} }
+	num := func(s string) *N { return &N{K: "num", S: s} }
+	switch name {
+	case "sub", "gsub":
+		return &N{K: "call", Op: name, Kids: []*N{re(), arg}}
+	case "split":
+		return &N{K: "call", Op: name, Kids: []*N{arg, arr()}}
+	case "match":
+		return &N{K: "call", Op: name, Kids: []*N{arg, re()}}
+	case "rand":
+		return &N{K: "call", Op: name, Kids: []*N{}}
+	case "substr":
+		return &N{K: "call", Op: name, Kids: []*N{arg, num("1")}}
+	case "sprintf":
+		return &N{K: "call", Op: name, Kids: []*N{str("%s"), arg}}
+	case "atan2", "index":
+		return &N{K: "call", Op: name, Kids: []*N{arg, num("2")}}
+	}
+	return &N{K: "call", Op: name, Kids: []*N{arg}} // srand fflush length cos sin exp log sqrt int tolower toupper system close
+}
+
+// every built-in function token of the CURRENT lexer (FIRST_FUNC..LAST_FUNC)
+func builtinNames() []string {
+	var ns []string
+	for t := lexer.FIRST_FUNC; t <= lexer.LAST_FUNC; t++ {
+		ns = append(ns, t.String())
+	}
+	return ns
+}
+
+// every kind of operand that can be the 2nd or 3rd operand of a juxtaposition: one tree per token
+// that can start it (all built-ins, user call, $, !, NAME, NUMBER, STRING, "(" via an operand that
+// needs parentheses, getline forms (parenthesised), and - + ++ -- which the grammar reads otherwise:
+// those are not well-formed and only feed the correspondence)
+func starters() []*N {
+	v := func(s string) *N { return &N{K: "var", S: s} }
+	n1 := &N{K: "num", S: "1"}
+	var st []*N
+	for _, b := range builtinNames() {
+		st = append(st, builtinCall(b, v("y")))
+	}
+	st = append(st,
+		&N{K: "call", Op: "length"},
+		&N{K: "ucall", S: "f", Kids: []*N{v("y")}},
+		&N{K: "field", Kids: []*N{n1}},
+		&N{K: "field", Kids: []*N{{K: "field", Kids: []*N{n1}}}},
+		&N{K: "unary", Op: "not", Kids: []*N{v("y")}},
+		&N{K: "unary", Op: "sub", Kids: []*N{v("y")}},
+		&N{K: "unary", Op: "add", Kids: []*N{v("y")}},
+		&N{K: "incr", Op: "incr", Pre: true, Kids: []*N{v("y")}},
+		&N{K: "incr", Op: "decr", Pre: true, Kids: []*N{v("y")}},
+		&N{K: "incr", Op: "incr", Kids: []*N{v("y")}},
+		v("y"), &N{K: "index", S: "arr", Kids: []*N{n1}}, n1, &N{K: "str", S: "s"}, &N{K: "regex", S: "ab"},
+		&N{K: "cond", Kids: []*N{v("y"), n1, v("z")}},
+		&N{K: "binary", Op: "lt", Kids: []*N{v("y"), n1}},
+		&N{K: "assign", Kids: []*N{v("y"), n1}},
+		&N{K: "multiin", S: "brr", Kids: []*N{n1, v("y")}},
+		&N{K: "in", S: "arr", Kids: []*N{v("y")}},
+		&N{K: "getline", Kids: []*N{nil, nil, nil}},
+		&N{K: "getline", Kids: []*N{nil, v("y"), nil}},
+		&N{K: "getline", Kids: []*N{nil, nil, &N{K: "str", S: "file"}}},
+		&N{K: "getline", Kids: []*N{&N{K: "str", S: "cmd"}, nil, nil}},
+		&N{K: "binary", Op: "pow", Kids: []*N{v("y"), n1}},
+		&N{K: "binary", Op: "mul", Kids: []*N{v("y"), n1}},
+		&N{K: "binary", Op: "add", Kids: []*N{v("y"), n1}},
+	)
+	return st
+}
+
+// the systematic adjacency set: every starter as 2nd operand, as 3rd operand and in the middle of
+// a juxtaposition, after each kind of left operand
+func adjacencyTrees() []*N {
+	cat := func(a, b *N) *N { return &N{K: "binary", Op: "concat", Kids: []*N{a, b}} }
+	lefts := func() []*N {
+		return []*N{{K: "var", S: "x"}, {K: "num", S: "2"}, {K: "str", S: "t"},
+			{K: "call", Op: "int", Kids: []*N{{K: "var", S: "x"}}}, {K: "field", Kids: []*N{{K: "num", S: "2"}}}}
+	}
+	var ts []*N
+	for _, s := range starters() {
+		for _, l := range lefts() {
+			ts = append(ts, cat(l, s))
+		}
+		l := lefts()
+		ts = append(ts, cat(cat(l[0], l[1]), s), cat(cat(l[0], s), l[2]), cat(cat(l[2], s), s))
+	}
+	return ts
 }
 
 var (
@@ -315,35 +415,9 @@ func genCases(o hx.Opts, r *hx.Rand) []*kase {
 		emit(randTree(r, 2+r.Intn(7), 'e'), "random")
 	}
 
-	// print / printf statements: several arguments, optional parentheses around the list, redirections
-	nprint := nrand / 2
-	for i := 0; i < nprint; i++ {
-		nargs := 1 + r.Intn(3)
-		var args []*N
-		good := true
-		for j := 0; j < nargs; j++ {
-			d := 1 + r.Intn(3)
-			var t *N
-			if j == nargs-1 && r.Intn(3) == 0 { // last argument ends in ?: (the shape of F-C04-1)
-				t = &N{K: "cond", Kids: []*N{randTree(r, d, 'e'), randTree(r, d, 'e'), randTree(r, d, 'e')}}
-				if r.Intn(3) == 0 {
-					t = &N{K: "assign", Kids: []*N{leaf(r, 'l', 0), t}}
-				}
-			} else {
-				t = randTree(r, d, 'e')
-			}
-			good = good && wf(t)
-			args = append(args, t)
-		}
-		kw := "print"
-		if r.Intn(4) == 0 {
-			kw = "printf"
-		}
-		redir := []string{"", ">", ">>", "|"}[r.Intn(4)]
+	// one print/printf statement in its three writings
+	emitPrint := func(kw string, args []*N, redir string, dest *N, parenList, good bool) {
 		redirName := map[string]string{"": "none", ">": "gt", ">>": "append", "|": "pipe"}[redir]
-		dest := randTree(r, r.Intn(2), 'e')
-		good = good && wf(dest)
-		parenList := nargs > 1 && r.Intn(4) == 0
 		for _, form := range []string{"min", "full", "none"} {
 			var parts []string
 			for _, a := range args {
@@ -396,6 +470,56 @@ func genCases(o hx.Opts, r *hx.Rand) []*kase {
 			}
 			add(c)
 		}
+	}
+
+	// print / printf statements: several arguments, optional parentheses around the list, redirections
+	nprint := nrand / 2
+	for i := 0; i < nprint; i++ {
+		nargs := 1 + r.Intn(3)
+		var args []*N
+		good := true
+		for j := 0; j < nargs; j++ {
+			d := 1 + r.Intn(3)
+			var t *N
+			if j == nargs-1 && r.Intn(3) == 0 { // last argument ends in ?: (the shape of F-C04-1)
+				t = &N{K: "cond", Kids: []*N{randTree(r, d, 'e'), randTree(r, d, 'e'), randTree(r, d, 'e')}}
+				if r.Intn(3) == 0 {
+					t = &N{K: "assign", Kids: []*N{leaf(r, 'l', 0), t}}
+				}
+			} else {
+				t = randTree(r, d, 'e')
+			}
+			good = good && wf(t)
+			args = append(args, t)
+		}
+		kw := "print"
+		if r.Intn(4) == 0 {
+			kw = "printf"
+		}
+		redir := []string{"", ">", ">>", "|"}[r.Intn(4)]
+		dest := randTree(r, r.Intn(2), 'e')
+		good = good && wf(dest)
+		parenList := nargs > 1 && r.Intn(4) == 0
+		emitPrint(kw, args, redir, dest, parenList, good)
+	}
+
+	// the systematic adjacency set (always run): every operand starter as 2nd / 3rd operand of a
+	// juxtaposition in every context: plain, print and printf argument without and with each
+	// redirection, pattern, condition, subscript, user-call and built-in-call argument
+	for _, t := range adjacencyTrees() {
+		emitAll(t, "adjacency")
+		emitIn(t, "adjacency", "printf")
+		emitIn(&N{K: "index", S: "arr", Kids: []*N{t}}, "adjacency-subscript", "plain")
+		emitIn(&N{K: "index", S: "arr", Kids: []*N{{K: "num", S: "1"}, t}}, "adjacency-subscript", "cond")
+		emitIn(&N{K: "ucall", S: "f", Kids: []*N{t, {K: "var", S: "z"}}}, "adjacency-callarg", "plain")
+		emitIn(&N{K: "call", Op: "int", Kids: []*N{t}}, "adjacency-callarg", "pattern")
+		emitIn(&N{K: "assign", Kids: []*N{{K: "var", S: "s"}, t}}, "adjacency-assign", "plain")
+		g := wf(t)
+		for _, rd := range []string{">", ">>", "|"} {
+			emitPrint("print", []*N{t}, rd, &N{K: "str", S: "file"}, false, g)
+		}
+		emitPrint("printf", []*N{{K: "str", S: "%s"}, t}, ">", &N{K: "str", S: "file"}, false, g)
+		emitPrint("print", []*N{{K: "var", S: "z"}, t}, "", nil, true, g)
 	}
 
 	// token soups and mutated writings (correspondence only)
